@@ -60,7 +60,7 @@ def _worker_task(task):
         def prof(frame, event, arg):  # pylint: disable=unused-argument
             if event == "call":
                 fn = frame.f_code.co_filename
-                if fn.startswith(src):
+                if fn.startswith(src) and frame.f_code.co_name != "<module>":
                     funcs.add("%s:%s" % (fn[len(src) + 1 :], frame.f_code.co_qualname if hasattr(frame.f_code, "co_qualname") else frame.f_code.co_name))
 
     t0 = time.time()
@@ -219,6 +219,9 @@ def run_check(prop, harness_name, tier, seed=0, budget_s=None, mutant=None, jobs
 
 
 # ---------------------------------------------------------------------------------------------------------------
+MUTANT = None
+
+
 def _replay_batch(items, timeout=600):
     """items: list of {harness, spec, model, props}.  Runs them in ONE fresh uninstrumented interpreter on the real rp2."""
     if not items:
@@ -231,6 +234,10 @@ def _replay_batch(items, timeout=600):
         env = dict(os.environ)
         env["PYTHONPATH"] = VERIF
         env["PYTHONHASHSEED"] = "0"
+        if MUTANT:
+            env["VERIF_MUTANT"] = MUTANT
+        else:
+            env.pop("VERIF_MUTANT", None)
         p = subprocess.run([REAL_PY, "-m", "symx.replay", "--batch", path], cwd=d, env=env, capture_output=True, text=True, timeout=timeout, check=False)
         if p.returncode != 0:
             raise RuntimeError("replay process failed: %s" % (p.stderr[-2000:],))
@@ -269,7 +276,9 @@ def finish(res, max_replays_per_kind=3):
     """replay violations, validate sampled traces, apply known findings, write evidence, print verdict. Returns exit code."""
     from .api import same  # pylint: disable=import-outside-toplevel
 
+    global MUTANT
     prop, harness_name, mod, specs, states = res["prop"], res["harness"], res["mod"], res["specs"], res["states"]
+    MUTANT = res.get("mutant")
     known = load_known()
     out_lines = []
     # ---- 1. candidate violations -> replay on the real code
